@@ -27,11 +27,22 @@ def exact_vocab(rng, alpha_bytes, canonical=0, n_multi=24):
     return vocabs.small_exact(ab, multi, canonical)
 
 
+def add_dfs(ep, n_single, rng, budget=900):
+    """turn the episode into an exhaustive one: every string over the single-byte tokens (ids 0..n_single-1) that the
+    masks allow, up to the largest depth with n^depth <= 4 * budget (at most 10), mask + accepting flag at every node"""
+    depth = 1
+    while depth < 10 and n_single ** (depth + 1) <= 4 * budget:
+        depth += 1
+    ep["script"] = [["dfs", depth, list(range(n_single)), budget]]
+    ep["gid"] += ":dfs"
+    return ep
+
+
 W_LIGHT = {"mask": 100, "fft_side": 100, "validate": 20, "acc": 100, "ffb": 25, "commit_try": 10, "commit_batch": 10,
            "rollback": 5, "status": 10, "after_stop": 20}
 
 
-def regex_job(prop, seed, n, sizes=(2, 9), byte_complete=False):
+def regex_job(prop, seed, n, sizes=(2, 9), byte_complete=False, dfs_share=0.2):
     rng = random.Random(f"{prop}-rx-{seed}")
     eps = []
     for i in range(n):
@@ -80,10 +91,12 @@ def regex_job(prop, seed, n, sizes=(2, 9), byte_complete=False):
                     "gram": g, "cfgs": [{"vocab": voc, "vid": 0, "slices": []}],
                     "w": dict(W_LIGHT if byte_complete else W_EXACT),
                     "eos_pct": rng.choice([10, 25]), "log_vocab": 1, "init_extra": {"rx": ast, "entry": entry}})
+        if voc["kind"] == "list" and len(ab | {122}) <= 6 and rng.random() < dfs_share:
+            add_dfs(eps[-1], len(ab | {122}), rng)
     return {"episodes": eps}
 
 
-def cfg_job(prop, seed, n, hand_share=0.2, byte_complete=False):
+def cfg_job(prop, seed, n, hand_share=0.2, byte_complete=False, dfs_share=0.2):
     from . import cfggen
     rng = random.Random(f"{prop}-cfg-{seed}")
     eps = []
@@ -114,10 +127,12 @@ def cfg_job(prop, seed, n, hand_share=0.2, byte_complete=False):
         eps.append({"gid": f"cfg:{name}", "mode": prop, "seed": rng.randrange(1 << 30), "steps": rng.randint(5, 12),
                     "gram": {"kind": "lark", "text": text}, "cfgs": [{"vocab": voc, "vid": 0, "slices": []}], "w": w,
                     "eos_pct": rng.choice([10, 25]), "log_vocab": 1, "init_extra": {"cfg": g}})
+        if not byte_complete and len(ab) <= 7 and rng.random() < dfs_share:
+            add_dfs(eps[-1], len(ab), rng)
     return {"episodes": eps}
 
 
-def pcfg_job(prop, seed, n):
+def pcfg_job(prop, seed, n, dfs_share=0.25):
     """parametric Lark grammars (docs/parametric.md shapes) validated by spec/Trace_CfgP.tla"""
     from . import paramgen
     rng = random.Random(f"{prop}-pcfg-{seed}")
@@ -135,6 +150,8 @@ def pcfg_job(prop, seed, n):
         eps.append({"gid": f"pcfg:{i}", "mode": prop, "seed": rng.randrange(1 << 30), "steps": rng.randint(6, 16),
                     "gram": {"kind": "lark", "text": text}, "cfgs": [{"vocab": voc, "vid": 0, "slices": []}], "w": dict(W_EXACT),
                     "eos_pct": rng.choice([10, 25]), "log_vocab": 1, "init_extra": {"pcfg": paramgen.spec_json(g)}})
+        if len(ab) <= 7 and rng.random() < dfs_share:
+            add_dfs(eps[-1], len(ab), rng, budget=500)
     return {"episodes": eps}
 
 
